@@ -230,3 +230,67 @@ Theorem c13_authn_query_response_ids_v0_refuted :
             /\ ids_unique live_table live_ids (to_tree live_table o) = false.
 Proof. exact authn_query_response_ids_v0_refuted. Qed.
 Print Assumptions c13_authn_query_response_ids_v0_refuted.
+
+(* ---- the `farg` argument tree of create_authn_response / create_attribute_response / setup_assertion
+   (Server.update_farg, argtree.is_set / add_path, s_utils.factory, assertion.do_subject): for EVERY tree the caller
+   may hand in — any nesting of dictionaries, strings, None, instances, lists — and every in_response_to / consumer url,
+   if update_farg returns at all then the confirmation method is set in the completed tree ... *)
+From Verif Require Import C13.Farg C13.FargProofs.
+
+Theorem c13_update_farg_method_set :
+  forall irt url f f', update_farg irt url f = Some f' -> is_set f' P_METHOD = Some true.
+Proof. exact update_farg_method_set. Qed.
+Print Assumptions c13_update_farg_method_set.
+
+(* ... it is the caller's value where the caller set one (not None), the default otherwise: Method = bearer,
+   InResponseTo = the in_response_to argument, Recipient = the consumer url *)
+Theorem c13_update_farg_method :
+  forall irt url f f', update_farg irt url f = Some f' -> get f' P_METHOD = kept_or f P_METHOD (FStr SCM_BEARER).
+Proof. exact update_farg_method. Qed.
+Print Assumptions c13_update_farg_method.
+
+Theorem c13_update_farg_in_response_to :
+  forall irt url f f', update_farg irt url f = Some f' -> get f' P_IRT = kept_or f P_IRT (ostr irt).
+Proof. exact update_farg_in_response_to. Qed.
+Print Assumptions c13_update_farg_in_response_to.
+
+Theorem c13_update_farg_recipient :
+  forall irt url f f', update_farg irt url f = Some f' -> get f' P_RECIPIENT = kept_or f P_RECIPIENT (ostr url).
+Proof. exact update_farg_recipient. Qed.
+Print Assumptions c13_update_farg_recipient.
+
+(* ... every SubjectConfirmation of the Subject built from it carries the required Method attribute (no domain
+   restriction at all: whenever the call emits something) ... *)
+Theorem c13_farg_subject_method_present :
+  forall a o, subject_of a = Some o -> forallb sc_has_method (subject_confirmations o) = true.
+Proof. exact subject_method_present. Qed.
+Print Assumptions c13_farg_subject_method_present.
+
+(* ... and the Subject is valid whenever the leaves of the completed tree have the lexical form of the attribute
+   they become (InResponseTo an NCName, NotBefore a dateTime) and the instances handed in are valid ones *)
+Theorem c13_farg_subject_valid :
+  forall a o, subject_of a = Some o -> fa_dom a = true ->
+              valid live_table (CK k_saml_Subject) (to_tree live_table o) = true.
+Proof. exact subject_valid. Qed.
+Print Assumptions c13_farg_subject_valid.
+
+Theorem c13_farg_subject_default_valid :
+  forall irt url nid noa f,
+    falsy f = true -> opt_lexb LNCName irt = true -> check_lex LDateTime noa = true -> opt_valid k_saml_NameID nid = true ->
+    exists o, subject_of {| fa_farg := f; fa_in_response_to := irt; fa_consumer_url := url; fa_name_id := nid;
+                            fa_not_on_or_after := noa |} = Some o
+              /\ valid live_table (CK k_saml_Subject) (to_tree live_table o) = true.
+Proof. exact subject_default_valid. Qed.
+Print Assumptions c13_farg_subject_default_valid.
+
+(* non-vacuity: a farg that only adds an Address *)
+Theorem c13_farg_sample :
+  fa_dom sample_fa = true /\
+  subject_tree sample_fa =
+  Some (Node (qa "Subject") [] ""%string
+          [Node (qa "SubjectConfirmation") [(Q "" "Method", SCM_BEARER)] ""%string
+             [Node (qa "SubjectConfirmationData")
+                   [(Q "" "NotOnOrAfter", "2023-11-14T22:28:20Z"%string); (Q "" "Recipient", "https://sp.example.org/acs"%string);
+                    (Q "" "InResponseTo", "id-1"%string); (Q "" "Address", "192.0.2.7"%string)] ""%string []]]).
+Proof. exact sample_fa_built. Qed.
+Print Assumptions c13_farg_sample.
